@@ -152,6 +152,9 @@ Section GG.
         let indices1 := map (fun p : nat * nat => Z.of_nat (snd p)) ps in
         let sz := size (tl shape0) in
         let one_d := (length shape0 =? 1)%nat in
+        (* no surviving axis at all (integers and None only): `shape[0]` of an empty shape array *)
+        if negb any_u && (length shape0 =? 0)%nat then Raise IndexError
+        else
         let '(indices2, indptr2) :=
           if any_u then (indices1, indptr1)
           else
